@@ -10,7 +10,7 @@ import traceback
 HERE = os.path.dirname(os.path.abspath(__file__))
 sys.path.insert(0, HERE)
 
-from common import Result, lake_build  # noqa: E402
+from common import Result, lake_build, regenerate  # noqa: E402
 
 
 def main():
@@ -27,11 +27,15 @@ def main():
         return mod.replay(a.replay)
     res = Result(prop, tier)
     if not a.no_build:
+        gen_ok, gen_log = regenerate()
+        res.gen_ok, res.gen_log = gen_ok, gen_log
         ok, log = lake_build(("Model", "driver"))
         if not ok:
             print(log)
             print("framework build failed", file=sys.stderr)
             return 2
+    else:
+        res.gen_ok, res.gen_log = True, "skipped"
     try:
         mod.run(res, tier)
     except Exception:  # noqa: BLE001
